@@ -187,7 +187,7 @@ func runCheck(def *CheckDef, tier string, seed int, noKnown, noReplay bool, only
 			// no job may run away: exceeding the budget is reported as inconclusive
 			budget = 10 * time.Minute
 			if tier == "thorough" {
-				budget = 90 * time.Minute
+				budget = 20 * time.Minute
 			}
 		}
 		lim.Deadline = time.Now().Add(budget)
@@ -223,6 +223,7 @@ func runCheck(def *CheckDef, tier string, seed int, noKnown, noReplay bool, only
 		passingBudget = 8
 	}
 	var passing []map[string]interface{}
+	var partial []map[string]interface{}
 	for _, o := range outcomes {
 		r := o.res
 		for k, v := range r.Reach {
@@ -250,7 +251,13 @@ func runCheck(def *CheckDef, tier string, seed int, noKnown, noReplay bool, only
 		qs.errs += r.Queries.Errors
 		solverT += r.Queries.Time
 		if r.Incomplete != "" && !r.StoppedOnViolations {
-			inconclusive = append(inconclusive, o.spec.Name+": "+r.Incomplete)
+			if tier == "thorough" && strings.HasPrefix(r.Incomplete, "time budget reached") {
+				// thorough tier: a job that exhausts its time budget without a violation is reported as PARTIAL
+				// (depth-first exploration of the stated bound, not exhaustive); the quick tier stays strict
+				partial = append(partial, map[string]interface{}{"job": o.spec.Name, "paths_explored": r.Counts[sx.StOK], "note": r.Incomplete})
+			} else {
+				inconclusive = append(inconclusive, o.spec.Name+": "+r.Incomplete)
+			}
 		}
 		crossQ += r.CrossQueries
 		crossD += r.CrossDisagreements
@@ -388,6 +395,7 @@ func runCheck(def *CheckDef, tier string, seed int, noKnown, noReplay bool, only
 		"reach_labels":                    reach,
 		"known_findings_hit":              khList,
 		"inconclusive_reasons":            inconclusive,
+		"partial_jobs":                    partial,
 		"cross_solver_queries":            crossQ,
 		"cross_solver_disagreements":      crossD,
 		"replays":                         replays,
@@ -397,7 +405,7 @@ func runCheck(def *CheckDef, tier string, seed int, noKnown, noReplay bool, only
 		"stubs":                           def.Stubs,
 		"functions_encoded":               repoFuncs(funcs),
 		"functions_encoded_total":         len(funcs),
-		"exhaustive":                      len(inconclusive) == 0,
+		"exhaustive":                      len(inconclusive) == 0 && len(partial) == 0,
 	}
 	var jobsCov []map[string]interface{}
 	for _, o := range outcomes {
